@@ -11,6 +11,7 @@ import (
 	"strconv"
 	"strings"
 	"sync"
+	"sync/atomic"
 	"time"
 
 	"github.com/markusressel/fan2go/internal/configuration"
@@ -84,6 +85,9 @@ type c16Case struct {
 	OptionVia string `json:"optionVia,omitempty"`
 	// Scraped: a Prometheus scrape of the controller metrics (the real collector) every few milliseconds during the analyses
 	Scraped bool `json:"scraped,omitempty"`
+	// FailFirst: the analysis of the first fan fails part-way (its device refuses PWM writes from the RPM-curve phase on,
+	// taking 100 ms to say so); the other fans are queued behind it
+	FailFirst bool `json:"failFirst,omitempty"`
 }
 
 func (c *c16Case) cfgMap(i int) bool { return i < len(c.CfgMap) && c.CfgMap[i] }
@@ -207,6 +211,9 @@ func runC16(ctx *Ctx, c *c16Case) (intervals []c16Interval, ok bool) {
 		d.Mu.Lock()
 		d.Mem[pwm], d.Mem[en] = "120", "2"
 		d.Plants[rpm] = &util.VerifPlant{RpmPath: rpm, PwmPath: pwm, Kind: "linear", MaxRpm: 2000}
+		if c.FailFirst && i == 0 {
+			d.Rules = append(d.Rules, &util.VerifRule{Path: pwm, Op: "w", From: 257, Action: "fail", Errno: "EIO", DelayMs: 100})
+		}
 		d.Rules = append(d.Rules, &util.VerifRule{Path: pwm, Op: "w", Action: "quant", Val: c.Levels[i]})
 		d.Mu.Unlock()
 		paths = append(paths, pwm, en, rpm)
@@ -261,6 +268,7 @@ func runC16(ctx *Ctx, c *c16Case) (intervals []c16Interval, ok bool) {
 	d.Mu.Unlock()
 	cctx, cancel := context.WithCancel(context.Background())
 	var wg sync.WaitGroup
+	var firstFailed int32
 	if c.Scraped {
 		col := statistics.NewControllerCollector(ctrls)
 		wg.Add(1)
@@ -278,6 +286,11 @@ func runC16(ctx *Ctx, c *c16Case) (intervals []c16Interval, ok bool) {
 		go func(i int) {
 			defer wg.Done()
 			time.Sleep(time.Duration(c.DelaysMs[i]) * time.Millisecond)
+			if c.FailFirst && i == 0 {
+				_ = ctrls[i].RunInitializationSequence()
+				atomic.StoreInt32(&firstFailed, 1)
+				return
+			}
 			if c.ViaRun || c.kind(i) == "file" || c.prior(i) != "" {
 				_ = ctrls[i].Run(cctx)
 			} else {
@@ -291,6 +304,12 @@ func runC16(ctx *Ctx, c *c16Case) (intervals []c16Interval, ok bool) {
 		mu.Lock()
 		finished := 0
 		for i := 0; i < n; i++ {
+			if c.FailFirst && i == 0 {
+				if atomic.LoadInt32(&firstFailed) == 1 {
+					finished++
+				}
+				continue
+			}
 			mapOnly := (c.kind(i) == "file" || c.prior(i) != "") && !c.cfgMap(i) // the analysis ends with the stored PWM map
 			if _, ok := sp.saved[ids[i]]; ok && !mapOnly {
 				finished++
@@ -327,6 +346,9 @@ func runC16(ctx *Ctx, c *c16Case) (intervals []c16Interval, ok bool) {
 	mu.Lock()
 	defer mu.Unlock()
 	for i := 0; i < n; i++ {
+		if c.FailFirst && i == 0 {
+			continue // (its analysis ended with an error; the fans behind it are what is looked at)
+		}
 		end := sp.saved[ids[i]]
 		if sp.savedMap[ids[i]] > end {
 			end = sp.savedMap[ids[i]]
@@ -368,6 +390,12 @@ func genC16(r *rand.Rand) *c16Case {
 	c.OptionVia = pick(r, "", "", "yaml", "env")
 	c.Scraped = r.Intn(2) == 0
 	if r.Intn(4) == 0 {
+		// three hwmon fans, the first one's analysis fails while the two others wait
+		c.Levels, c.Kinds, c.DelaysMs = []int{3, pick(r, 3, 4), pick(r, 3, 4)}, []string{"hwmon", "hwmon", "hwmon"}, []int{0, 20 + r.Intn(20), 50 + r.Intn(30)}
+		c.FailFirst, c.ViaRun, c.Scraped = true, false, false
+		return c
+	}
+	if r.Intn(4) == 0 {
 		// some hwmon fans carry a pwmMap in their configuration entry
 		for i := 0; i < n; i++ {
 			c.CfgMap = append(c.CfgMap, c.Kinds[i] == "hwmon" && r.Intn(3) > 0)
@@ -397,6 +425,9 @@ func init() {
 			class := fmt.Sprintf("fans=%d:viaRun=%v:fileFans=%d", len(c.Levels), c.ViaRun, strings.Count(strings.Join(c.Kinds, ","), "file"))
 			if c.Scraped {
 				class += ":scraped"
+			}
+			if c.FailFirst {
+				class += ":first-analysis-fails"
 			}
 			if c.OptionVia != "" {
 				class += ":option-via-" + c.OptionVia
